@@ -60,6 +60,17 @@ type SeedRecSlice struct {
 	Kids []SeedRecSlice
 }
 
+// self-referential types that are not structs
+type SeedTreeMap map[string]SeedTreeMap
+type SeedTreeSlice []SeedTreeSlice
+type SeedPtrList []*SeedPtrList
+type SeedMapOfSlices map[string][]SeedMapOfSlices
+type SeedHasTrees struct {
+	T SeedTreeMap   `struct:"t"`
+	S SeedTreeSlice `struct:"s,omitempty"`
+	N int           `struct:"n"`
+}
+
 // re-entrant container types: folding an element folds the same map type again, and fields follow the map
 type SeedNode struct {
 	Kids map[string]SeedNode `struct:"kids"`
@@ -121,6 +132,12 @@ type SeedCustomHolder struct {
 	C  SeedCustom  `struct:"c"`
 	P  *SeedCustom `struct:"p"`
 	In SeedCustom  `struct:",inline"`
+}
+// a self-referential struct that cannot be handled: the types compiled on the way (its pointer, slices of it) must not
+// survive the refusal in a usable-looking state
+type SeedBadRec struct {
+	Next *SeedBadRec
+	C    chan int
 }
 type SeedBad1 struct{ C chan int }
 type SeedBad2 struct{ F func() }
@@ -314,6 +331,9 @@ func seeds() []seed {
 		{"SeedZeroV", []interface{}{SeedZeroV{}, SeedZeroV{1}}, nil, nil},
 		{"SeedRec", []interface{}{SeedRec{}, *rec(3), rec(2)}, nil, nil},
 		{"SeedRecSlice", []interface{}{SeedRecSlice{}, SeedRecSlice{Kids: []SeedRecSlice{{}, {Kids: []SeedRecSlice{{}}}}}}, nil, nil},
+		{"SeedRecursiveContainers", []interface{}{SeedTreeMap{"a": {"b": {}}, "c": nil}, SeedTreeMap(nil), SeedTreeSlice{{}, {{}, nil}}, SeedTreeSlice(nil), SeedPtrList{&SeedPtrList{nil}, nil},
+			SeedMapOfSlices{"k": {{"i": nil}, nil}}, SeedHasTrees{T: SeedTreeMap{"x": nil}, S: SeedTreeSlice{{}}, N: 1}, SeedHasTrees{}, &SeedTreeMap{"p": {}}, []SeedTreeMap{{"e": nil}},
+			map[string]SeedTreeSlice{"m": {{}}}, struct{ I interface{} }{SeedTreeMap{"in": {}}}}, nil, nil},
 		{"SeedNode", []interface{}{
 			SeedNode{Name: "a", W: 1, Kids: map[string]SeedNode{"b": {Name: "b", W: 2, Kids: map[string]SeedNode{"c": {Name: "c", W: 3, Kids: map[string]SeedNode{"d": {Name: "d", W: 4}}}}}}},
 			map[string]SeedNode{"x": {Name: "x", W: 9, Kids: map[string]SeedNode{"y": {Name: "y", W: 8}}}},
@@ -341,6 +361,7 @@ func seeds() []seed {
 		{name: "SeedBuiltinFolders", vals: seedBuiltinValues(), opts: []gotype.FoldOption{gotype.Folders(foldSeedLevel, foldSeedFloat, foldSeedBytes)}, custom: seedBuiltinCustom},
 		{name: "SeedShapedFolders", vals: seedShapedValues(), opts: []gotype.FoldOption{gotype.Folders(foldSeedLabels, foldSeedBox, foldSeedOne)}, custom: seedShapedCustom},
 		{"SeedBad1", []interface{}{SeedBad1{}, SeedBad1{C: make(chan int)}}, nil, nil},
+		{"SeedBadRec", []interface{}{SeedBadRec{}, &SeedBadRec{}, []SeedBadRec{{}}, map[string]*SeedBadRec{"k": {}}}, nil, nil},
 		{"SeedBad2", []interface{}{SeedBad2{}}, nil, nil},
 		{"SeedBad3", []interface{}{SeedBad3{C: 1i}}, nil, nil},
 		{"SeedBad4", []interface{}{SeedBad4{}, SeedBad4{M: map[int]string{1: "a"}}, map[int]string{1: "a"}}, nil, nil},
@@ -674,7 +695,13 @@ func goFamilies(tier string, run func(x *engine.Exec, c *GoCase)) []engine.Famil
 	return fams
 }
 
-func kindClass(t reflect.Type) string {
+func kindClass(t reflect.Type) string { return kindClassD(t, 0) }
+
+func kindClassD(t reflect.Type, depth int) string {
+	if depth > 6 {
+		return "rec" // self-referential container type
+	}
+	kindClass := func(t reflect.Type) string { return kindClassD(t, depth+1) }
 	switch t.Kind() {
 	case reflect.Ptr:
 		return "ptr-" + kindClass(t.Elem())
